@@ -10,7 +10,7 @@ from vlib import core
 PROPS = ["Props/C08.v", "Props/C08src.v"]
 TRANSLATORS = ["bounds"]
 THEOREMS = ["C08_tests_are_source", "C08_effective_bounds_are_source", "C08_repairs_are_source", "C08_check_is_source",
-            "C08_construct_is_source", "C08_assembly_is_source",
+            "C08_assemble_is_source", "C08_construct_is_source", "C08_call_is_source",
             "C08_accept_sound", "C08_invalid_rejected", "C08_reject_sound_partial", "C08_reject_complete",
             "C08_valid_accepted", "C08_normalisation_minimal", "C08_repairs_identity_inside",
             "C08_never_overflows", "C08_inf_x0_rejected", "C08_margin_box_refuted", "C08_nan_coordinate_refuted",
@@ -29,7 +29,7 @@ RULE = ("D=1: {absent,-inf,+inf,nan,-2,-1,0,1,2}^5 (59049 definitions: all in th
 TRUSTED = [
     "Coq 8.16.1 kernel + vm_compute (case evaluation); no native_compute",
     "hand-written model Model/BoundsCheck.v of BADS.__init__ / _bounds_check_ (N0 = 1), tied by differential comparison on the real constructor (harness/comp_bounds.py); "
-    "its check_coords is PROVED equal to the program regenerated from the source (C08_check_is_source), its assemble/finish (the defaults of BADS.__init__) are only pinned textually (C08_assembly_is_source) and tied dynamically",
+    "its check_coords and assemble are PROVED equal to the programs regenerated from the source (C08_check_is_source, C08_assemble_is_source); finish (the draw of a non-finite x0) and the D = 0 crash of option loading are only pinned textually / tied dynamically",
     "translate/bounds.py (fail-closed ast whitelist over BADS._bounds_check_ / BADS.__init__; per-coordinate reading of NumPy's element-wise operators, masks and np.any; "
     "float literals read as the decimals they spell; `a > b` emitted as `b < a`, == with canonically ordered operands) - validated on every run: the generated program is "
     "evaluated by Coq (vm_compute) on every definition of the tie's streams and compared with the real constructor",
@@ -180,11 +180,11 @@ def tie(ctx, broken):
         ctx.coverage["source_program_validated_on"] = len(streams) - len(bad_src)
         ctx.count(len(streams), 0)
         good = ctx.oblige("correspondence:bounds_source", "correspondence", not bad_src,
-                          f"generated program (coq/gen/Src_bounds.v, run_prog) vs real constructor: {len(bad_src)} of {len(streams)} definitions differ")
+                          f"generated programs (coq/gen/Src_bounds.v: run_head src_head, run_prog src_prog) vs real constructor: {len(bad_src)} of {len(streams)} definitions differ")
         if not good:
             i = bad_src[0]
             s, c = streams[i]
-            prog = core.coq_show("C08_show_src", B.REQUIRES_SRC, f"construct_with src_prog {B.coq_defn(c)}", defs=B.COQ_DEFS)
+            prog = core.coq_show("C08_show_src", B.REQUIRES_SRC, f"construct_with2 src_head src_prog {B.coq_defn(c)}", defs=B.COQ_DEFS)
             what = (f"the program translated from the source and the real constructor differ on [{s}] {case_json(c)}: real={_brief(res[i])} generated{prog[:300]}"
                     + ("  [the hand-written model agrees with the constructor here: TRANSLATOR fault]" if i not in bad else ""))
             broken.append(("correspondence:bounds_source", what))
@@ -407,7 +407,7 @@ def replay(ctx, rp):
         else:
             ok2, bad2, log2 = core.run_cases("C08_replay_src", B.REQUIRES_SRC, B.CASE_TY, B.OK_FUN_SRC,
                                              [B.coq_case(case, res, approx_all=True)], defs=B.COQ_DEFS)
-            prog = core.coq_show("C08_show_src", B.REQUIRES_SRC, f"construct_with src_prog {B.coq_defn(case)}", defs=B.COQ_DEFS)
+            prog = core.coq_show("C08_show_src", B.REQUIRES_SRC, f"construct_with2 src_head src_prog {B.coq_defn(case)}", defs=B.COQ_DEFS)
             print("generated program (translate/bounds.py on the current source):", prog[:400])
             print("generated program vs constructor:", "agree" if ok2 and not bad2 else "DIFFER")
             if not ok2 or bad2:
